@@ -156,8 +156,8 @@ static bool run_once(verif::Schedule& sch, int run_idx, int print) {
                 t_height = o.arg ? o.arg : 1;
                 bool ok; const void* addr;
                 auto v = T::val(o.key, t * 1000 + i);
-                if (o.name == "ins") { OpScope sc(t, i); auto pr = c.insert(std::move(v)); t_active = false; ok = pr.second; addr = &*pr.first; if (T::key(*pr.first) != o.key) fail("insert returned an iterator to a different key"); }
-                else { OpScope sc(t, i); auto pr = c.emplace(std::move(v)); t_active = false; ok = pr.second; addr = &*pr.first; if (T::key(*pr.first) != o.key) fail("emplace returned an iterator to a different key"); }
+                if (o.name == "ins") { OpScope sc(t, i); auto pr = c.insert(std::move(v)); t_active = false; ok = pr.second; addr = &*pr.first; arena().hb_read(addr); if (T::key(*pr.first) != o.key) fail("insert returned an iterator to a different key"); }
+                else { OpScope sc(t, i); auto pr = c.emplace(std::move(v)); t_active = false; ok = pr.second; addr = &*pr.first; arena().hb_read(addr); if (T::key(*pr.first) != o.key) fail("emplace returned an iterator to a different key"); }
                 completed[o.key]++; ins_completed++;
                 if (ok) { wins[o.key]++; if (!elems_all.insert(addr).second) fail("two successful inserts returned the same element"); elems_done.insert(addr); }
                 else if (T::multi) fail("insert into a multi container reported failure");
@@ -166,7 +166,7 @@ static bool run_once(verif::Schedule& sch, int run_idx, int print) {
             } else if (o.name == "find" || o.name == "has") {
                 bool must = completed.count(o.key) || pre_cnt.count(o.key) || thrown_linked.count(o.key);
                 bool f;
-                if (o.name == "find") { OpScope sc(t, i); auto it = c.find(ek); t_active = false; f = it != c.end(); if (f && T::key(*it) != o.key) fail("find returned a different key"); if (f && arena().is_dead(&*it)) fail("find returned a deallocated node"); }
+                if (o.name == "find") { OpScope sc(t, i); auto it = c.find(ek); t_active = false; f = it != c.end(); if (f) arena().hb_read(&*it); if (f && T::key(*it) != o.key) fail("find returned a different key"); if (f && arena().is_dead(&*it)) fail("find returned a deallocated node"); }
                 else { OpScope sc(t, i); f = c.contains(ek); }
                 bool may = started.count(o.key) || pre_cnt.count(o.key);
                 if (must && !f) fail("find-after-insert: key " + std::to_string(o.key) + " not found although an insert of it had returned");
@@ -216,7 +216,7 @@ static bool run_once(verif::Schedule& sch, int run_idx, int print) {
                     }
                     for (auto it = x.begin(); it != x.end(); ++it) {
                         if (++n > walk_bound) { fail("range traversal does not terminate / runs past its end"); break; }
-                        r.vals.push_back(T::key(*it)); addrs.push_back(&*it);
+                        r.vals.push_back(T::key(*it)); addrs.push_back(&*it); arena().hb_read(&*it);
                     }
                 };
                 range_t whole = c.range();
@@ -256,6 +256,12 @@ static bool run_once(verif::Schedule& sch, int run_idx, int print) {
         }
     });
     verif::Result rr = verif::run(bodies, sch, 100000);
+    if (!rr.deadlock) {
+        // happens-before (harness/shim/verif_hb.h): the allocating thread's initialisation of a node / table / segment, every read of an element obtained
+        // from the container and the deallocation must be ordered by the memory orders the container passes to its atomic accesses
+        auto races = verif::hb_check(rr.log, bodies.size());
+        if (!races.empty()) fail(verif::hb_describe(rr.log, races[0]) + " (ghost cell = 1000000 + allocation record: initialisation by the allocating thread / reads of elements obtained from the container / deallocation)");
+    }
     if (g_fair && g_fair->forced) observations.push_back("busy-wait: thread " + std::to_string(g_fair->spinner) + " ran " + std::to_string(g_fair->limit) +
         " consecutive steps without finishing (it spins on another thread's progress without pause/yield); " + std::to_string(g_fair->forced) + " forced switches");
     arena().on_dealloc = nullptr;
@@ -379,6 +385,7 @@ static bool run_once(verif::Schedule& sch, int run_idx, int print) {
         };
         for (auto& e : rr.log) {
             if (e.kind == verif::K_NOTE) {
+                if (e.tag[0] == 'g') continue;                      // happens-before ghosts
                 if (e.tag[0] == 'x') printf("x %d %s %llu\n", e.tid, F_NAMES[e.a < F_N ? e.a : 0], (unsigned long long)e.b);
                 else printf("o %d %s %llu\n", e.tid, e.tag, (unsigned long long)e.a);
                 continue;
